@@ -243,3 +243,8 @@ def loopvar(*a, **k): pass
 def hint(*a, **k): pass
 def unroll(*a, **k): pass
 def cases(*a, **k): pass
+
+
+def is_prefix(p, s):
+    """p is a (not necessarily strict) prefix of s"""
+    return bytes(s[:len(p)]) == bytes(p)
